@@ -106,7 +106,7 @@ def strategy(tier, sub=None):
 
 
 def budget(tier, sub=None):
-    return {"examples": 12000 if tier == "quick" else 400000, "shards": 16}
+    return {"examples": 24000 if tier == "quick" else 400000, "shards": 16}
 
 
 def make_order(opts):
